@@ -122,7 +122,10 @@ def run_impl(c):
                 bounds[0] = [st["xmin"], st["ymin"]]; bounds[1] = [st["xmax"], st["ymax"]]
             out.append(bool(plot_utils.point_in_bounds([st["x"], st["y"]], bounds, st["tol"])))
         return {"bs": out}
-    return {"b": bool(plot_utils.point_in_bounds([c["x"], c["y"]], [[c["xmin"], c["ymin"]], [c["xmax"], c["ymax"]]], c["tol"]))}
+    # the point as a list, a tuple, or a one-shot iterable of two numbers (what map(float, text.split(",")) hands over)
+    style = (c["x"].numerator + c["y"].denominator + c["xmax"].numerator) % 4 if isinstance(c["x"], F) else hash((c["x"], c["y"])) % 4
+    pt = [c["x"], c["y"]] if style < 2 else (c["x"], c["y"]) if style == 2 else iter([c["x"], c["y"]])
+    return {"b": bool(plot_utils.point_in_bounds(pt, [[c["xmin"], c["ymin"]], [c["xmax"], c["ymax"]]], c["tol"]))}
 
 def coq_case(c, r):
     k = c["kind"]
